@@ -303,6 +303,14 @@ class Model(object):
         return None
 
 
+def is_contextmanager(fnode):
+    for d in getattr(fnode, 'decorator_list', []):
+        nm = d.attr if isinstance(d, ast.Attribute) else d.id if isinstance(d, ast.Name) else ''
+        if nm == 'contextmanager':
+            return True
+    return False
+
+
 class Engine(object):
     def __init__(self, model, unroll=2, max_paths=200000, max_depth=4, comp_unroll=1):
         self.model = model
@@ -315,6 +323,7 @@ class Engine(object):
         self.npaths = 0
         self.notes = []
         self._closures = {}
+        self._cmgens = {}          # generator-based context managers waiting for their `with` (id -> (fnode, callee env, label))
         self._pending_defaults = []
         self.collapse_pure = False
 
@@ -735,6 +744,19 @@ class Engine(object):
                     continue
 
                 def then(st2, v, item=item):
+                    if isinstance(v, tuple) and v and v[0] == 'cmgen':
+                        # a generator-based context manager of the code under analysis: run it up to its yield now
+                        res_ = []
+                        for kind_, st3, val_, genv in self._cm_enter(v[1], st2):
+                            if kind_ != NEXT:
+                                res_.append(st3)          # an Out (raise before the yield)
+                                continue
+                            st3.facts['__withval'] = ('cmgen', v[1], genv)
+                            if item.optional_vars is not None:
+                                res_.extend(self.assign(item.optional_vars, val_, st3))
+                            else:
+                                res_.append(Out(NEXT, st3))
+                        return res_
                     st2.facts['__withval'] = v
                     if item.optional_vars is not None:
                         return self.assign(item.optional_vars, ('ctx', v), st2)
@@ -750,9 +772,106 @@ class Engine(object):
             else:
                 for bo in self.exec_block(s.body, o.st):
                     # leaving the block (normally or not) exits the context managers, innermost first
+                    cur = [bo]
                     for v in reversed(vals):
-                        self.model.with_exit(v, bo.st, s)
-                    res.append(bo)
+                        if isinstance(v, tuple) and v and v[0] == 'cmgen':
+                            cur = [x for b in cur for x in self._cm_exit(v, b)]
+                        elif isinstance(v, tuple) and len(v) > 2 and v[0] == 'call' and v[1][0] == 'lib' and v[1][1].split('.')[-1] == 'suppress':
+                            # contextlib.suppress(E, ...): an exception of one of these classes raised in the block ends the block normally
+                            names = [a[1].split('.')[-1] for a in v[2] if a[0] == 'lib']
+                            nxt_ = []
+                            for b in cur:
+                                if b.kind == RAISE and names and token_matches(b.exc, names):
+                                    b.st.emit('CAUGHT', (C(b.exc), C(','.join(names))), getattr(s, 'lineno', 0))
+                                    nxt_.append(Out(NEXT, b.st))
+                                else:
+                                    nxt_.append(b)
+                            cur = nxt_
+                        else:
+                            for b in cur:
+                                self.model.with_exit(v, b.st, s)
+                    res.extend(cur)
+        return res
+
+    # ------------------------------------------------------------------ generator-based context managers (@contextlib.contextmanager)
+    def _cm_parts(self, fnode):
+        """(pre, yield expr, post, finalbody) of a generator with exactly one yield, at the top level of its body or of a top-level try/finally"""
+        def is_yield(stm):
+            if isinstance(stm, ast.Expr) and isinstance(stm.value, ast.Yield):
+                return stm.value
+            if isinstance(stm, ast.Assign) and isinstance(stm.value, ast.Yield):
+                return stm.value
+            return None
+        nyield = sum(1 for x in ast.walk(fnode) if isinstance(x, (ast.Yield, ast.YieldFrom)))
+        if nyield != 1:
+            raise AnalysisError('unmodelled context manager %s: %d yields' % (fnode.name, nyield))
+        body = fnode.body
+        for i, stm in enumerate(body):
+            y = is_yield(stm)
+            if y is not None:
+                return body[:i], y, body[i + 1:], []
+            if isinstance(stm, ast.Try) and not stm.handlers and not stm.orelse:
+                for j, s2 in enumerate(stm.body):
+                    y = is_yield(s2)
+                    if y is not None:
+                        return body[:i] + stm.body[:j], y, stm.body[j + 1:] + stm.finalbody + body[i + 1:], stm.finalbody
+        raise AnalysisError('unmodelled context manager %s: the yield is not at the top level of the body (or of a try/finally)' % fnode.name)
+
+    def _cm_enter(self, gid, st):
+        fnode, callee_env, label = self._cmgens[gid]
+        pre, y, post, fin = self._cm_parts(fnode)
+        saved_env = st.env
+        st.env = dict(callee_env)
+        st.depth += 1
+        st.frames = st.frames + (label,)
+        out = []
+
+        def leave(st_):
+            st_.env = dict(saved_env)
+            st_.depth -= 1
+            st_.frames = st_.frames[:-1]
+        for o in self.exec_block(pre, st):
+            if o.kind == NEXT:
+                for r in (self.ev(y.value, o.st) if y.value is not None else [R(o.st, NONE)]):
+                    genv = r.st.env
+                    leave(r.st)
+                    if r.exc is not None:
+                        out.append((RAISE, Out(RAISE, r.st, exc=r.exc, line=r.line), None, None))
+                    else:
+                        out.append((NEXT, r.st, r.val, genv))
+            elif o.kind == RAISE:
+                leave(o.st)
+                out.append((RAISE, o, None, None))
+            else:
+                leave(o.st)
+                out.append((RAISE, Out(RAISE, o.st, exc=GENERIC, line=getattr(fnode, 'lineno', 0)), None, None))     # generator didn't yield
+        return out
+
+    def _cm_exit(self, v, bo):
+        """the with-block was left with outcome bo: resume the generator (normal exit) or throw into it (exception)"""
+        fnode, _, label = self._cmgens[v[1]]
+        pre, y, post, fin = self._cm_parts(fnode)
+        genv = v[2]
+        block = post if bo.kind != RAISE else fin      # an exception raised at the yield runs only the finally clause, then propagates
+        if not block:
+            return [bo]
+        st = bo.st
+        saved_env = st.env
+        st.env = dict(genv)
+        st.depth += 1
+        st.frames = st.frames + (label,)
+        res = []
+        for o in self.exec_block(block, st):
+            o.st.env = dict(saved_env)
+            o.st.depth -= 1
+            o.st.frames = o.st.frames[:-1]
+            if o.kind == RAISE:
+                res.append(o)
+            elif o.kind in (NEXT, RETURN):
+                nb = Out(bo.kind, o.st, getattr(bo, 'val', None)) if bo.kind != RAISE else Out(RAISE, o.st, exc=bo.exc, line=bo.line)
+                res.append(nb)
+            else:
+                raise AnalysisError('break/continue escaped context manager %s' % label)
         return res
 
     def st_Try(self, s, st):
@@ -1398,6 +1517,10 @@ class Engine(object):
                 callee_env[nm] = C(d.value)
             else:
                 callee_env[nm] = ('default', nm, unparse(d))
+        if not isinstance(fnode, ast.Lambda) and is_contextmanager(fnode):
+            gid = len(self._cmgens) + 1
+            self._cmgens[gid] = (fnode, callee_env, label)
+            return [R(st, ('cmgen', gid))]
         n_events0 = len(st.events)
         facts0 = _copyfacts(st.facts)
         zero0 = st.zero
